@@ -155,12 +155,13 @@ type Method struct {
 	ErrType    *TypeRef  `json:"errType,omitempty"`  // nil = plain error
 	Response   *ErrResp  `json:"response,omitempty"` // @Response(code) desc
 	Errors     []ErrResp `json:"errors,omitempty"`
-	Desc       []string  `json:"desc,omitempty"`      // leading free-text lines
-	Decoy      string    `json:"decoy,omitempty"`     // "" | noMethod | noRoute | noDoc | otherReceiver
-	AnnOrder   []int     `json:"annOrder,omitempty"`  // permutation seed for annotation order
-	ValueRecv  bool      `json:"valueRecv,omitempty"` // func (c Ctl) instead of (c *Ctl)
-	RawDoc     []string  `json:"rawDoc,omitempty"`    // when set, replaces the rendered annotation block (perturbation labs)
-	RawSig     string    `json:"rawSig,omitempty"`    // when set, replaces "(params) (results)" (perturbation labs)
+	Desc       []string  `json:"desc,omitempty"`       // leading free-text lines
+	Decoy      string    `json:"decoy,omitempty"`      // "" | noMethod | noRoute | noDoc | otherReceiver
+	AnnOrder   []int     `json:"annOrder,omitempty"`   // permutation seed for annotation order
+	ValueRecv  bool      `json:"valueRecv,omitempty"`  // func (c Ctl) instead of (c *Ctl)
+	RawDoc     []string  `json:"rawDoc,omitempty"`     // when set, replaces the rendered annotation block (perturbation labs)
+	RawSig     string    `json:"rawSig,omitempty"`     // when set, replaces "(params) (results)" (perturbation labs)
+	RawImports []string  `json:"rawImports,omitempty"` // imports the raw signature needs
 }
 
 type Controller struct {
